@@ -203,7 +203,18 @@ def time_major(a2):
 class C06(Family):
     prop = "C06"
     extra_modules = ["CtrlVerif.Props.C06Real",      # realisations, long division, step/impulse
-                     "CtrlVerif.Props.C06Exp"]       # continuous time over R: exp, ODE, FOH sampling
+                     "CtrlVerif.Props.C06Exp",       # continuous time over R: exp, ODE, FOH sampling
+                     # source-text tie (notes/NOTES-py2lean-timeresp.md): Generated/TimeResp*.lean are rewritten
+                     # from the text of forced_response (control/timeresp.py) of the tree under check on every
+                     # run and proved equal to the model; one small file per block
+                     "CtrlVerif.Props.C06GenFoh", "CtrlVerif.Props.C06GenFree", "CtrlVerif.Props.C06GenCont",
+                     "CtrlVerif.Props.C06GenDisc", "CtrlVerif.Props.C06GenGrid", "CtrlVerif.Props.C06Gen"]
+
+    def pre_build(self):
+        import os
+        from core import py2lean_tr, leanproj
+        problems, self.gen_info = py2lean_tr.regenerate(os.environ.get("VERIF_REPO") or "/repo", leanproj.LEAN)
+        return problems
     externals = ["scipy.linalg.expm (its values are parameters of the continuous-time model; for "
                  "nilpotent A they are replaced by exact finite sums)",
                  "scipy.signal.dlsim / scipy.interpolate.make_interp_spline(k=1) (the model contains "
